@@ -225,6 +225,8 @@ def check(prop, tier):
         ntx2, distinct, samples = nontrivial_stats(files)
         if prop == "C01":
             readers_part(binary, tier, sd, d, rep)
+        if prop == "C14":
+            many_goroutines_part(binary, tier, sd, d, rep)
         rep.coverage.update(
             traces_validated_against_impl=ncases, evaluations=ntx, distinct_nontrivial=distinct,
             trace_lines=lines,
@@ -265,6 +267,37 @@ def readers_part(binary, tier, sd, d, rep):
             rep.violation(dict(formula=f, reader=True), dict(kind="readers", property="C01", formula=f, sample=line),
                           "reader sample violates %s: %s" % (f, json.dumps(line)[:300]))
     rep.coverage["reader_samples"] = nsamples
+
+
+def many_goroutines_part(binary, tier, sd, d, rep):
+    """C14, mutations from many goroutines: the tracer must never see a transition
+    start while another one of the same machine is open.  Forced schedules of 3
+    callers (gate hooks of processQueue) and free-running 8-goroutine workloads;
+    judged by TraceQueue's `mutex` / `handlers-overlap` formulas (the latter also
+    carries the tracer's maximum of simultaneously open transitions)."""
+    plans = [(3, 2, ["-random", "250" if tier == "quick" else "8000"]),
+             (8, 30, ["-free", "60" if tier == "quick" else "1500"])]
+    n = 0
+    for i, (callers, muts, mode) in enumerate(plans):
+        pref = os.path.join(d, "mg%d" % i)
+        rc, out = run([binary, "queue", "-callers", str(callers), "-muts", str(muts), "-seed", str(sd * 7 + i),
+                       "-out", pref] + mode, timeout=3000)
+        if rc != 0:
+            raise Inconclusive("queue driver failed: " + out[-1500:])
+        files = sorted(glob.glob(pref + ".*.ndjson"))
+        consts = dict(Callers="{" + ", ".join(str(c) for c in range(1, callers + 1)) + "}", MutsPer=muts,
+                      NestCodes="{}", PrepCodes="{}", Recheck=True)
+        for r in tlcrun.validate_traces("TraceQueue", consts, files, timeout=3000):
+            if r["result"] is None:
+                raise Inconclusive("TraceQueue failed: " + r["out"][-1500:])
+            n += r["result"]["ntx"]
+            for l, f in r["result"]["viol"]:
+                if f in ("mutex", "handlers-overlap"):
+                    line = tlcrun.line_of(r["file"], l)
+                    rep.violation(dict(formula="no-interleave:" + f, goroutines=callers),
+                                  dict(kind="queue", property="C14", formula=f, line=line),
+                                  "two transitions of one machine overlapped (%s): %s" % (f, json.dumps(line)[:300]))
+    rep.coverage["many_goroutine_executions"] = n
 
 
 def check_c11(tier):
